@@ -1739,6 +1739,7 @@ func rpcOracles(trace string) []string {
 	retRefs := map[int]map[int]int{} // answer id -> export id -> references its Return carried
 	finRel := map[int]bool{}         // answer ids finished with releaseResultCaps before their Return
 	finished := map[int]bool{}
+	cancels := strings.Contains(trace, "lX") || strings.Contains(trace, "lZ")
 	stalls := strings.Contains(trace, "fH") || strings.Contains(trace, "fW") || strings.Contains(trace, "lS") || strings.Contains(trace, "lQ")
 	// hostile and fault ops make the counts uncertain: the table comparison is only made on clean histories
 	// a message the transport refused may have been a Release: the counts of later ones then cover it
@@ -1985,7 +1986,9 @@ func rpcOracles(trace string) []string {
 					relQ[q] = false
 					// a call addressed to promisedAnswer(t) goes out before the Finish of question t
 					var tq int
-					if _, err := fmt.Sscanf(ev[strings.Index(ev, ",")+1:], "a%d", &tq); err == nil && !inUseQ[tq] {
+					// (not judged when the application cancels calls: cancelling a call while a call pipelined on it is still being
+					// built sends the Finish first, and the pipelined call then fails at the peer — the application asked for that)
+					if _, err := fmt.Sscanf(ev[strings.Index(ev, ",")+1:], "a%d", &tq); err == nil && !inUseQ[tq] && !cancels {
 						note(fmt.Sprintf("!call-targets-question-%d-after-its-finish", tq))
 					}
 					if inUseQ[q] {
@@ -2016,7 +2019,7 @@ func rpcOracles(trace string) []string {
 				fmt.Sscanf(ev, ">Dis(sl%d,", &id)
 				embargoed[id] = true
 				var tq int
-				if _, err := fmt.Sscanf(ev[strings.Index(ev, ",")+1:], "a%d", &tq); err == nil && !inUseQ[tq] {
+				if _, err := fmt.Sscanf(ev[strings.Index(ev, ",")+1:], "a%d", &tq); err == nil && !inUseQ[tq] && !cancels {
 					note(fmt.Sprintf("!disembargo-targets-question-%d-after-its-finish", tq))
 				}
 			case strings.HasPrefix(ev, ">Fin("):
